@@ -30,6 +30,10 @@ func keysFor(o OptSet, base []string) []string {
 	if o.NumKeys || o.MaxIdx > 0 {
 		out = append(out, "2", "10", "0", "1")
 	}
+	if o.Sep != "" && !o.Esc && !strings.ContainsAny(o.Sep, "[]") {
+		// brackets mean nothing unless EscapePath is given
+		out = append(out, "[e"+o.Sep+"f]")
+	}
 	return out
 }
 
